@@ -60,6 +60,9 @@ def run(ctx):
     ctx.ob("I-INDEX", "to_terms_with_image: index = counter at the first placeholder, all other items pushed (so index <= pushed count)", ok, "")
     progress.rule_L_PROGRESS(ctx, set(p for p in reach if "impl_enum::parser" not in p), 8, enum=False)
     progress.rule_L_RECURSION_lexical(ctx, reach)
+    # a truncated closing bracket / separator accepted as the keyword moves the returned border beyond the environment (D10)
+    import fullmatch
+    fullmatch.rule_P_FULLMATCH(ctx)
     ctx.undecided = ["bounds obligations of the lexical segmenters that rest on the reviewed invariant `a returned border never exceeds the "
                      "slice it was computed on` (recorded per site in the table) rather than on a machine proof", "stack depth"]
     ctx.assumptions = ["lengths <= isize::MAX", "iterators driving `for` loops are finite", "external callees not on the may-panic list are total",
